@@ -138,7 +138,7 @@ func (n *Node) UpdateID(newID NodeID) error {
 	}
 
 	for _, tmpBus := range buses {
-		tmpBus.nodeIDs.modifyKey(n.id, newID, tmpBus.entityID)
+		tmpBus.nodeIDs.modifyKey(n.id, newID, n.entityID)
 	}
 
 	n.id = newID
@@ -194,6 +194,7 @@ func (n *Node) RemoveInterface(interfaceNumber int) error {
 		newInterfaces = append(newInterfaces, tmpInt)
 	}
 
+	n.interfaces = newInterfaces
 	n.interfaceCount--
 
 	return nil
